@@ -33,6 +33,8 @@ struct C15 {
     heights_compared: u64,
     violated: bool,
     prios_seen: BTreeMap<i64, u64>,
+    state_rewind_checks: u64,
+    heights_compared_across_state_rewinds: u64,
 }
 
 impl C15 {
@@ -106,6 +108,33 @@ impl Monitor for C15 {
                 }
             }
         }
+        // a deep rewind_to_chain_state re-queues (target, floor] with a FORCED Historic insertion:
+        // by the dominance rule that must not lower an unscanned range of higher priority
+        if let Some(Op::RewindToState { to, ok: true, floor, .. }) = h.last_op().cloned() {
+            self.state_rewind_checks += 1;
+            for x in to + 1..=floor {
+                if let (Some(was), Some(is)) = (prio_at(&self.prev, x), prio_at(&q, x)) {
+                    self.heights_compared_across_state_rewinds += 1;
+                    if was > 20 && is < was {
+                        self.viol(
+                            h,
+                            r,
+                            "C15:rewind_to_chain_state:lowered-priority-of-unscanned-range",
+                            format!("height {x} (rewind target {to}, retained floor {floor}) had priority {was}, now {is}; before {:?} after {q:?}", self.prev),
+                        );
+                        break;
+                    }
+                }
+            }
+            // nothing at or below the target changes
+            let lo = self.prev.first().map(|x| x.0).unwrap_or(to);
+            for x in lo..=to {
+                if prio_at(&self.prev, x) != prio_at(&q, x) {
+                    self.viol(h, r, "C15:rewind_to_chain_state:changed-queue-at-or-below-target", format!("height {x} <= target {to}: {:?} -> {:?}", prio_at(&self.prev, x), prio_at(&q, x)));
+                    break;
+                }
+            }
+        }
         // the harness's own record of scanned heights must be marked Scanned (unless a tip update /
         // rewind asked for re-verification, which the dominance rule allows to override)
         self.prev = q;
@@ -116,6 +145,8 @@ impl Monitor for C15 {
         r.count("queue_partition_checks", self.queue_checks);
         r.count("scan_exactness_checks", self.scan_exactness_checks);
         r.count("heights_compared_for_scannedness", self.heights_compared);
+        r.count("deep_state_rewind_checks", self.state_rewind_checks);
+        r.count("heights_compared_across_deep_state_rewinds", self.heights_compared_across_state_rewinds);
         for (p, n) in &self.prios_seen {
             r.count(&format!("queue_rows_with_priority_{p}"), *n);
         }
@@ -148,6 +179,20 @@ fn main() {
         }
         let mut mon = C15::default();
         let suggested_mode = i % 3 != 2;
+        if !suggested_mode {
+            // random-order histories: long enough for a rewind_to_chain_state deeper than the pruning
+            // window while unscanned ranges of higher priority lie between target and floor, and
+            // for chain tips told at the edge of the stability rule
+            cfg.deep_state_rewinds = true;
+            cfg.tip_at_stability_edge = true;
+            // subtree roots known in half of them (the stability rule only applies then)
+            if (i / 3 + args.shard) % 2 == 0 {
+                cfg.shard_start = true;
+            }
+            cfg.out_of_order = true;
+            cfg.initial_len = cfg.initial_len.max(150);
+            cfg.steps = cfg.steps.max(25);
+        }
         let res = guard(|| {
             let mut h = Hist::new(cfg.clone(), rng);
             h.id = i;
@@ -197,6 +242,9 @@ fn main() {
             let ops: Vec<Value> = h.ops.iter().take(30).map(|o| o.to_json()).collect();
             r.sample(&format!("suggested={suggested_mode} rewinds={}", h.rewinds_done.min(1)), json!({"cfg": cfg.to_json(), "first_ops": ops}));
             r.count("rewinds", h.rewinds_done as u64);
+            r.count("deep_state_rewinds_done", h.state_rewinds_done);
+            r.count("deep_state_rewinds_refused", h.state_rewinds_refused);
+            r.count("chain_tips_told_at_stability_edge", h.tips_at_stability_edge);
             r.count("subtree_roots_put", h.subtree_roots_put);
             if h.cfg.shard_start {
                 r.count("histories_starting_at_shard_boundary", 1);
